@@ -309,7 +309,15 @@ M("c10_query_dropped", ["C10"],
 M("c10_header_limit_off_by_one", ["C10"],
   ("lomond/parser.py", "        if self.max_bytes is not None and pos > self.max_bytes:", "        if self.max_bytes is not None and pos >= self.max_bytes:"))
 M("c10_status_line_prefix_match", ["C10"],
-  ("lomond/response.py", "            self.status_code = int(next(tokens, b''))", "            self.status_code = int(next(tokens, b'')[:3])"))
+  ("lomond/response.py", "        if len(status_code) == 3 and status_code.isdigit():\n            self.status_code = int(status_code)",
+   "        if status_code[:3].isdigit():\n            self.status_code = int(status_code[:3])"))
+M("c10_revert_fix_status_token", ["C10", "C19"],
+  ("lomond/response.py", "        if len(status_code) == 3 and status_code.isdigit():\n            self.status_code = int(status_code)\n        else:\n            self.status_code = None",
+   "        try:\n            self.status_code = int(status_code)\n        except ValueError:\n            self.status_code = None"))
+M("c10_revert_fix_ipv6_host", ["C10"],
+  ("lomond/websocket.py", "        self._host = '[{}]'.format(self.host) if ':' in self.host else self.host", "        self._host = self.host"))
+M("c19_connect_target_without_brackets", ["C19"],
+  ("lomond/session.py", "            self.websocket._host, self.websocket.port,", "            self.websocket.host, self.websocket.port,"))
 M("c10_folded_header_dropped", ["C10"],
   ("lomond/response.py", "                if header:\n                    headers[header].append(' ')\n                    headers[header].append(line.lstrip())",
    "                if header:\n                    pass"))
